@@ -530,6 +530,21 @@ def sx_sha1(data=b''):
     return _hashlib.sha1(data)
 
 
+class FakeMathModule(object):
+    """math.ceil on a symbolic real (idealised): -floor(-x) via z3 ToInt"""
+
+    @staticmethod
+    def ceil(x):
+        if isinstance(x, SymReal):
+            return SymReal(z3.ToReal(-z3.ToInt(-x.e)))
+        import math
+        return math.ceil(x)
+
+    def __getattr__(self, name):
+        import math
+        return getattr(math, name)
+
+
 def install():
     """register identity replacements (import statements in lomond then bind the stubs)"""
     R = instrument.register_replacement
@@ -542,6 +557,8 @@ def install():
     R(_base64.standard_b64encode, sx_b64encode)
     R(_hashlib.sha1, sx_sha1)
     R(_random.random, fake_random)
+    import math as _math
+    R(_math, FakeMathModule())
     instrument.install()
     import logging
     logging.disable(logging.CRITICAL)
